@@ -149,7 +149,9 @@ def run(tier: str, seed: int, st: core.ProofStatus) -> core.Result:
             if m["pooled"] and len(par) >= 3:
                 res.nontrivial.add(core.canon([small["files"], k, order]))
             spec_ok = sorted(par) == sorted(im["seq"])
-            if par != m["parallel"]:
+            if par != m["parallel"] and sorted(par) == sorted(m["parallel"]):
+                res.bump("order of findings", "same findings, listed in another order than the model")
+            if sorted(par) != sorted(m["parallel"]):
                 res.disagreements.append(core.Disagreement(
                     case={**small, "project": c["files"], "workers": k, "done": order}, impl=par[:20], model=m["parallel"][:20], spec=sorted(im["seq"])[:20],
                     property_fails=not spec_ok,
